@@ -1107,7 +1107,9 @@ def prefixscan_blelloch(func, preop, binop, x, axis=None, dtype=None, out=None):
     base_key = (name,)
 
     # Right now, the metadata for batches is incorrect, but this should be okay
-    batches = x.map_blocks(preop, axis=axis, keepdims=True, dtype=dtype)
+    batches = x.map_blocks(
+        partial(preop, dtype=dtype), axis=axis, keepdims=True, dtype=dtype
+    )
     # We don't need the last index until the end
     *indices, last_index = full_indices = [
         list(
